@@ -28,6 +28,7 @@ CONFIGS = {
     "unit": {"schema": "flat", "phases": ["PROBING", "COVERAGE", "FUZZING"], "workers": 1, "max_examples": 3},
     "unit-2w": {"schema": "flat", "phases": ["COVERAGE", "FUZZING"], "workers": 2, "max_examples": 3},
     "stateful": {"schema": "linked", "phases": ["STATEFUL_TESTING"], "workers": 1, "max_examples": 3, "steps": 3},
+    "unit-err": {"schema": "flat-err", "phases": ["FUZZING"], "workers": 1, "max_examples": 2},
     "all-linked": {"schema": "linked", "phases": ["EXAMPLES", "COVERAGE", "FUZZING", "STATEFUL_TESTING"], "workers": 1,
                    "max_examples": 2, "steps": 2},
 }
@@ -84,7 +85,7 @@ def judge(prop, row, clean):
 
 
 def sweep(chk, prop, procs=4):
-    names = ["unit", "stateful"] + (["unit-2w", "all-linked"] if chk.thorough else [])
+    names = ["unit", "stateful", "unit-err"] + (["unit-2w", "all-linked"] if chk.thorough else [])
     for cname in names:
         cfg = CONFIGS[cname]
         col = _child({"mode": "collect", **cfg})
